@@ -119,10 +119,10 @@ def run(tier, seed):
     d = stage_spec("kg/KgValues.tla", "kg/KgVerbs.tla", "kg/KgAdverbs.tla", "kg/KgEval.tla", "kg/KgMachine.tla")
     mod = os.path.join(d, "KgMachine.tla")
 
-    def cfg(name, maxlen, record, prop=False):
+    def cfg(name, maxlen, record, prop=False, only="{}"):
         p = os.path.join(d, name)
         with open(p, "w") as f:
-            f.write(f"INIT Init\nNEXT Next\nCONSTANTS\n  MaxLen = {maxlen}\n  RecordHist = {'TRUE' if record else 'FALSE'}\n"
+            f.write(f"INIT Init\nNEXT Next\nCONSTANTS\n  MaxLen = {maxlen}\n  RecordHist = {'TRUE' if record else 'FALSE'}\n  Only = {only}\n"
                     + ("PROPERTY Frame\n" if prop else "") + ("INVARIANT Emit\n" if record else "") + "CHECK_DEADLOCK FALSE\n")
         return p
     r0 = run_tlc(mod, cfg("design.cfg", 4 if not thorough else 5, False, prop=True), workers=16, timeout=3000)
@@ -134,6 +134,14 @@ def run(tier, seed):
     r1 = run_tlc(mod, cfg("tree.cfg", depth, True), workers=1, timeout=7200)
     ev.add_tlc(f"KgMachine.tla history tree to depth {depth}", r1, "emitted for replay")
     behs += [p for p in r1.prints if isinstance(p, list)]
+    # every history of 4 (thorough 5) statements over the long-string statements and the alias b::a
+    nst = [p for p in r1.prints if isinstance(p, list)]
+    nstmts = max((st["i"] for h in nst for st in h), default=0)
+    only = "{3, " + ", ".join(str(i) for i in range(nstmts - 6, nstmts + 1)) + "}"
+    rs = run_tlc(mod, cfg("strings.cfg", 4 if not thorough else 5, True, only=only), workers=1, timeout=7200)
+    ev.add_tlc(f"KgMachine.tla: every history of {4 if not thorough else 5} statements over the long-string statements {only}", rs, "emitted for replay, all replayed")
+    strs = [p for p in rs.prints if isinstance(p, list)]
+    ev.cov["long_string_histories"] = len(strs)
     nsim = 400 if not thorough else 5000
     r2 = run_tlc(mod, cfg("sim.cfg", 9, True), workers=1, simulate=f"num={nsim}", depth=10, seed=seed + 21, timeout=7200)
     ev.add_tlc(f"KgMachine.tla -simulate num={nsim} depth 9", r2, "emitted for replay")
@@ -143,7 +151,7 @@ def run(tier, seed):
     behs += sims[:(600 if not thorough else 6000)]
     rnd.shuffle(behs)
     cap = 4000 if not thorough else 40000
-    behs = behs[:cap]
+    behs = behs[:cap] + strs
     if not behs:
         raise MachineryError("no behaviours emitted")
     common.use_repo()
